@@ -136,17 +136,21 @@ Definition digest (l : list Z) : list Z := Z.of_nat (length l) :: blocks (S (len
 (* whole files with their SAUCE bytes (Model/C05Files.v): Buffer::to_bytes(ext, save_sauce = true) and Buffer::from_bytes on
    those bytes.  `name` = name of font 0 as code points, `date` = the 8 date bytes the real writer produced (taken from its
    output by the plug-in: the record carries today's date); the buffer has no SAUCE strings of its own (Buffer::new).
-   fmt: 0 bin, 2 xb, 4 tnd.  Layout as run_rt, but `bytes` is the complete file. *)
+   fmt as above.  Layout as run_rt, but `bytes` is the complete file. *)
 Definition file_to_bytes (fmt : N) (compress : bool) (p : pic) (name date : list N) : res (list N) :=
   match fmt with
   | 0%N => bin_to_bytes true p name None date
+  | 1%N => adf_to_bytes true p name None date
   | 2%N => xb_to_bytes compress true p name None date
+  | 3%N => idf_to_bytes compress true p name None date
   | _ => tnd_to_bytes true p name None date
   end.
 Definition file_from_bytes (fmt : N) (bytes : list N) : res buffer :=
   match fmt with
   | 0%N => bin_from_bytes Sauce.chrono_parse bytes
+  | 1%N => adf_from_bytes Sauce.chrono_parse bytes
   | 2%N => xb_from_bytes Sauce.chrono_parse bytes
+  | 3%N => idf_from_bytes Sauce.chrono_parse bytes
   | _ => tnd_from_bytes Sauce.chrono_parse bytes
   end.
 Definition run_file (fmt : N) (compress : bool) (p : pic) (name date : list N) : list Z :=
